@@ -8,7 +8,7 @@ def producers(workload):
     for s in workload.stages:
         tasks = s.tasks if s.tasks is not None else [("t", {"kind": "ok", "out": __import__("vlib.workloads", fromlist=["std_out"]).std_out(s.ref)})]
         for _tn, script in tasks:
-            for k in (script.get("out") or {}):
+            for k in list(script.get("out") or {}) + list(script.get("jump_out") or {}):
                 prod.setdefault(k, set()).add(s.ref)
     return prod
 
